@@ -440,7 +440,7 @@ PROPS["C18"]["level"] = "model_checking"
 PROPS["C18"]["mc"] = cluster_mc([
     ("c18_n2", "exhaustive + liveness: 2 non-renewable instances in all 5x5 mutual-knowledge x defunct x pending-suspicion states, "
                "one datagram of every kind injected, every delivery order; Terminates under weak fairness", BOTH),
-    ("c18_n2r", "as above with renewable identities", BOTH),
+    ("c18_n2r", "as above with renewable identities", ("thorough",)),
     ("c18_n2l", "as above with identities whose renew() yields an identity that loses the conflict", ("thorough",)),
 ])
 for k, extra in (("C02", "TLC first checks the same monitor exhaustively on MC_Cluster (2 and 3 FocaNode instances, network, timers, coarse "
